@@ -189,6 +189,11 @@ def build(c, via_attribute=False):
     if c["rub"] == "top":
       se, lo, hi = fmt_of(c)
       rub = float((hi // 2 + 1) * 2.0 ** se)   # on the grid, inside the range
+    if via_attribute and c["slope"] is not None:
+      # QAdaptiveActivation.__init__ builds the default quantized_relu and ASSIGNS negative_slope afterwards
+      q = Q.quantized_relu(c["bits"], c["integer"], 0, 0.0, relu_upper_bound=rub, is_quantized_clip=c["iqc"])
+      q.negative_slope = 2.0 ** -c["slope"]
+      return q
     return Q.quantized_relu(c["bits"], c["integer"], 0,
                             0.0 if c["slope"] is None else 2.0 ** -c["slope"],
                             relu_upper_bound=rub, is_quantized_clip=c["iqc"])
@@ -327,10 +332,10 @@ def run(rep, prop):
 
   n_attr = 0
   for ci, c in enumerate(cfgs):
-    via_attr = c["fam"] in ("qbits", "qlin") and ci % 2 == 1
+    via_attr = (c["fam"] in ("qbits", "qlin") and ci % 2 == 1) or (c["fam"] == "qrelu" and c.get("slope") is not None and ci % 2 == 1)
     n_attr += int(via_attr)
     q = build(c, via_attribute=via_attr)
-    if via_attr and int(bool(q.get_config().get("symmetric"))) != int(bool(c["sym"])):
+    if via_attr and c["fam"] in ("qbits", "qlin") and int(bool(q.get_config().get("symmetric"))) != int(bool(c["sym"])):
       rep.violation(f"symmetric-not-reported-{ci}", f"{describe(c)}: get_config() does not report the assigned symmetric", {"config": c})
     tensors = inputs_for(c, rng, tier)
     xs_all, ys_all = [], []
@@ -381,5 +386,5 @@ def run(rep, prop):
       results[ci]["coq"] = dict(ok=ok, skip=skip, nf=nf, bad=bad)
   rep.note(model_vs_impl=dict(configs=len(cfgs), inputs=n_inputs, agree=tot_ok,
                               outside_hypothesis_skipped=tot_skip, non_finite=tot_nf,
-                              configs_per_family=fam_count, built_by_assigning_symmetric_after_construction=n_attr))
+                              configs_per_family=fam_count, built_by_assigning_a_modifiable_attribute_after_construction=n_attr))
   return results
